@@ -15,12 +15,20 @@ META = dict(
     ],
     assumptions=[
         'pollard_flag is proved for all primes/m/bounds with g | m as a hypothesis; g | m is characterised exactly for '
-        'the constructor product with the DOCUMENTED exponents (C05Pollard defaultM_dvd_iff / userM_dvd_iff); lattice '
-        'families: pre/post sandwich around the LLL oracle + C01 soundness; CF and low-Hamming-weight clauses: no '
-        'completeness theorem. The completeness clauses are EVALUATED on the implementation for planted members of every '
+        'the constructor product built from ANY exponent list (C05PollardExps product_dvd_iff: the exponents the float '
+        'expression int(math.log(bound, p)) really returned), and in readable form for the DOCUMENTED exponents '
+        '(C05Pollard defaultM_dvd_iff / userM_dvd_iff); on every run the float exponents of the DEFAULT branch are required '
+        'to be the documented ones (gated), for user bounds the clause is evaluated with the REAL exponents (they differ '
+        'from the documented ones at the prime powers 243, 4913, 29791, 59049, 68921, 571787: observation, patch '
+        'fixes/pollard-user-bound-exponent.diff); lattice families: pre/post sandwich around the LLL oracle + C01 '
+        'soundness; the continued-fraction clause is a theorem (C05Cf cf_clause_default); low-Hamming-weight clause: no '
+        'completeness theorem (false on the real code for some keys: known finding D24); permuted limbs: the check only '
+        'tries word sizes ps < ws (C05PermutedRegion permuted_tried_region), the members of the property family with '
+        'ps >= ws (8-bit limbs, ps = 9, 11, 13, 15, 31) are statistics + the fixed probe of known finding D25. '
+        'The completeness clauses are EVALUATED on the implementation for planted members of every '
         'family named by the property (bit patterns, permuted limbs, two patterned primes, Hamming weight up to 32, shared '
         'prime-power factors): inside the property region (sizes >= 1024 bits; w <= bitlen/16 and <= 32 low bits; implied '
-        'denominator <= bitlen/10; words <= 64 bits) a miss is a VIOLATION; the region was measured beforehand on the real '
+        'denominator <= bitlen/10 AND 3 <= ps < ws; words <= 64 bits) a miss is a VIOLATION; the region was measured beforehand on the real '
         'code (15 783 bit-pattern, 899 permuted, 2 881 two-pattern, 136 low-weight keys at 1024..4096 bits: no miss '
         'inside the region; permuted limbs with bitlen/10 < bits(denominator) <= bitlen/8: 42 of 129 missed - outside the '
         'property, statistics only; two-pattern keys: all flagged, 2 120 of 2 881 also factored; low-weight keys: all flagged, '
@@ -37,7 +45,7 @@ def floor_log(r, b):
   return e
 
 
-def product_exponent(bound, r):
+def documented_exponent(bound, r):
   """documented exponent of the prime r in the product CheckPollardpm1(bound) builds
   (C05Pollard defaultM_dvd_iff / userM_dvd_iff)."""
   if bound:
@@ -47,8 +55,94 @@ def product_exponent(bound, r):
   return 1 if r < 2**20 else 0
 
 
+# bounds <= 2^20 at which int(math.log(bound, p)) is one below the exact floor(log_p bound) (measured by brute force
+# over every bound <= 2^20 and every prime: /var/tmp/w/review2/scratch/c05/m4_enum.out): bound -> {p: (float, exact)}
+FLOAT_DIFF = {243: {3: (4, 5)}, 4913: {17: (2, 3)}, 29791: {31: (2, 3)}, 59049: {3: (9, 10)},
+              68921: {41: (2, 3)}, 571787: {83: (2, 3)}}
+
+USED_EXPS = {}      # bound -> {prime: exponent in the product the real constructor built}
+
+
+def balanced_prod(xs):
+  xs = [gmpy2.mpz(x) for x in xs] or [gmpy2.mpz(1)]
+  while len(xs) > 1:
+    xs = [xs[i] * xs[i + 1] if i + 1 < len(xs) else xs[i] for i in range(0, len(xs), 2)]
+  return int(xs[0])
+
+
+def constructor_exponents(chkp, bound):
+  """Which exponents did the real constructor use? The float list [int(math.log(B, p))] of the shipped code and
+  the exact list [floor(log_p B)] (the documented value; what fixes/pollard-user-bound-exponent.diff computes) are
+  both evaluated here, independently of the constructor; `used` is the one whose product equals the real `_m`
+  (None when neither does: the constructor builds something else)."""
+  from paranoid_crypto.lib import ntheory_util
+  primes = [int(x) for x in ntheory_util.Sieve(bound or 2**20)]
+  raised = primes if bound else primes[:150]
+  top = bound or 2**64
+  flt = [int(math.log(top, pp)) for pp in raised]
+  doc = [floor_log(pp, top) for pp in raised]
+  m = int(chkp._m)
+  used = None
+  if m == balanced_prod([pp ** e for pp, e in zip(raised, flt)] + primes[len(raised):]):
+    used = flt
+  elif flt != doc and m == balanced_prod([pp ** e for pp, e in zip(raised, doc)] + primes[len(raised):]):
+    used = doc
+  if used is not None:
+    d = dict(zip(raised, used))
+    d.update((pp, 1) for pp in primes[len(raised):])
+    USED_EXPS[bound or None] = d
+  return dict(primes=primes, raised=raised, float=flt, doc=doc, used=used,
+              diff={pp: (a, c) for pp, a, c in zip(raised, flt, doc) if a != c})
+
+
+def product_exponent(bound, r):
+  """exponent of the prime r in the product the REAL constructor built (C05PollardExps usedExp: the entry of
+  the exponent list actually used at the position of r in the sieve; constructor_exponents must have run for
+  this bound). It is one below the documented exponent for bound = r^k in FLOAT_DIFF (finding M4)."""
+  d = USED_EXPS.get(bound or None)
+  if d is None:       # the constructor built neither product (reported by chk.pm1_product): the shipped expression
+    if not gmpy2.is_prime(r) or r >= (bound or 2**20):
+      return 0
+    return int(math.log(bound, r)) if bound else (int(math.log(2**64, r)) if r < 864 else 1)
+  return d.get(r, 0)
+
+
 def divides_by_criterion(gfac, bound):
   return all(k <= product_exponent(bound, r) for r, k in gfac)
+
+
+def float_edge_key(rng, bound, r0, k0, mreal, tries=40):
+  """a key for which the float exponent matters (finding M4): g = r0^k0 * (bound-powersmooth rest), 2^60 <= g < r0 * 2^60
+  (so that g / r0 stays below the gcd gate), p - 1 = g * A with A | documented product, q - 1 = g * (large prime), and
+  gcd(n - 1, real product) < 2^60. Returns (p, q, factorisation of g / 2) or None."""
+  primes = [int(x) for x in range(2, bound) if gmpy2.is_prime(x)]
+  mdoc = balanced_prod([pp ** floor_log(pp, bound) for pp in primes])
+  for _ in range(tries):
+    gf = {r0: k0, 2: rng.randint(1, floor_log(2, bound))}
+    g = r0 ** k0 * 2 ** gf[2]
+    rest = [pp for pp in primes if pp not in (2, r0)]
+    rng.shuffle(rest)
+    for pp in rest:
+      if g >= 2**60:
+        break
+      e = rng.randint(1, floor_log(pp, bound))
+      g *= pp ** e
+      gf[pp] = e
+    if not (2**60 <= g < r0 * 2**60):
+      continue
+    for a in range(1, 4000):
+      if math.gcd(a, g) != 1 or mdoc % (g * a):
+        continue
+      p = g * a + 1
+      if not gmpy2.is_prime(p):
+        continue
+      for _ in range(3000):
+        q = g * int(gmpy2.next_prime(rng.getrandbits(70))) + 1
+        if gmpy2.is_prime(q) and math.gcd(p * q - 1, mreal) < 2**60:
+          gf[2] -= 1
+          return p, q, sorted((r, k) for r, k in gf.items() if k > 0)
+      break
+  return None
 
 
 def verdict_factors(v):
@@ -114,6 +208,28 @@ D24_N = 0xffe0010000021fdefff000004000200000000000000000000000000000000000000000
 D24_WHAT = ('CheckLowHammingWeight (default parameters) does not flag n = p*q with p = 0xfff0000000020001 << 448 | 1-style primes of '
             'Hamming weight 15 (1024-bit n = ffe0010000021fde...0001): the clause "both primes have Hamming weight at most 32 => flagged" '
             'fails on the real best-first search for sparse primes that start with a run of one-bits')
+
+
+# known finding D25: members of the permuted-limb family of C05 with a word size ps >= the limb size ws, which
+# CheckPermutedBitPatterns never tries (`for psize in range(3, wsize, 2)`). (label, n, p, bits, ws, ps, dbits):
+#  - 1024 bits: p = the 11-bit word 0x5c4 repeated, adjacent 8-bit limbs swapped, + 6 (Props/C05PermutedRegion.lean
+#    d25_witness); implied denominator 91 bits <= 102; flagged by CheckSizes only (n < 2048 bits), factored by nothing;
+#  - 3072 bits: p = the 31-bit word 0x5bf24f9b repeated, 8-bit limbs swapped, - 78; implied denominator 271 bits <= 307;
+#    CheckAllRSA returns False for it.
+D25_KEYS = [
+    ('1024bit/ws8/ps11', 0x91653ceca7d2c8990a3ec5021beb7290649f29e13fcb8f6d1e8c09cf23b4382465c52e88f724d77f28fa1eee7891e442fb5b961c00098f95c7bd3fe888c3354263fee54102d0ea86b8322fc68ebe44b161a74ee24e54d34a25d6296e76f9d915be779b955c0e1e6b7dba0ea476f0b024cc6b540e6d0e1b2c997c49752e1c1e6d,
+     0x97b8e2124b5c7189252eb8c412975ce2894b2e71c42597b8e2124b5c7189252eb8c412975ce2894b2e71c42597b8e2124b5c7189252eb8c412975ce2894b2e77,
+     0x5c4, 8, 11),
+    ('3072bit/ws8/ps31', 0x971c57e239bab7d3a15f1c87d20e1a2e6a1022dcd402d4e674e7c200d637f7ed9fc04c0d98a148e32d2ec3fe6a8a390c9560285b21af6ef75d8450e0f808c0829375762dcfbe7eab15c184e0f604a5b9beca319572a832096efc7f17b2614d44f56a041a436bad205bac6512204a608bb0d49a410dbd1d1fc735cb5c6da3f3e2f20ff6b57283f98387a91a77768a3a774869f185779a32e4d4e17542db67a24847e8deac514a681ff87e1cd8eecfedcfac0b7a96684109f40044aae148bdf55216ed56500d3d3b16730ee486c5755739908e4f74400ba4567421ee1ce9fa71927118962f4af8eb5c5ce941ceac5b534fef75fb4d4235dec284cab2083724b657ab02b82d8bb6b6bb844466352d769027e998df0e45ef9b8603d0070bff3d006a8b984633123de7ff2da4e11d1aa87b02ce31dc14818dfb92db8d4e2c91d42a8028bf583e8a981d7a523af17060ffa5e81ad11668b19dfe58083861b2531290a5d5f43db83001e0088f1d3a5be90c1e27402d19e30c43358bf86e2072eea5c16b,
+     0xe4b7379fc96f6e3e92dfdd7c24bfbbf9497e76f393fcede627f9dbcd4ff2b79b9fe46f373ec9df6e7c92bfddf9247ebbf349fc76e693f9edcd27f2db9b4fe4b7379fc96f6e3e92dfdd7c24bfbbf9497e76f393fcede627f9dbcd4ff2b79b9fe46f373ec9df6e7c92bfddf9247ebbf349fc76e693f9edcd27f2db9b4fe4b7379fc96f6e3e92dfdd7c24bfbbf9497e76f393fcede627f9dbcd4ff2b79b9fe46f373ec9df6e7c92bfddf9247ebbf349fc76e693f9edcd27f2db9b4fe4b7379fc921,
+     0x5bf24f9b, 8, 31),
+]
+D25_WHAT = ('CheckPermutedBitPatterns enumerates word sizes psize in range(3, wsize, 2) only, so the members of the C05 family '
+            '"repetition of a w-bit word (w in the default list) with adjacent 8-bit limbs swapped, implied denominator <= bitlen/10" '
+            'with w = 9, 11, 13, 15, 31 >= 8 are never tried: n = 91653cec...1e6d (1024 bits; prime = 11-bit word 0x5c4 over 8-bit '
+            'limbs, swapped, + 6; denominator 91 bits <= 102) and n = 971c57e2... (3072 bits; 31-bit word, denominator 271 bits <= 307) '
+            'are factored neither by CheckPermutedBitPatterns nor by CheckBitPatterns, although rsa_util.CheckFraction(n, D) with the '
+            'implied denominator factors both; proposed patch fixes/permuted-psize-range.diff')
 
 
 def _lhw_default(n):
@@ -283,7 +399,9 @@ def correspondence(rep, rng, tier):
   # (gen_rsa.swapped_prime == Lean Permuted.swapLimbs ∘ periodicTop; C05Permuted.permuted_is_fraction),
   # apart from <= 32 low bits. Guaranteed by the property when the implied denominator has at most
   # bitlen(n)/10 bits; for bitlen/10 < bits(D) <= bitlen/8 the check still tries D but the property
-  # promises nothing (measured: frequent misses) — statistics only.
+  # promises nothing (measured: frequent misses) — statistics only. GATED REGION = property ∩ what the check
+  # tries: ws in 8/16/32/64, ps odd, 3 <= ps < ws, bits(D) <= bitlen/10. The rest of the property family
+  # (ps >= ws) is handled below (known finding D25).
   combos = {}
   for bits in (1024, 2048, 3072, 4096):
     combos[bits] = []
@@ -321,6 +439,57 @@ def correspondence(rep, rng, tier):
     b.add('chk.permuted %s %s' % (H(n), red_table(calls)), v,
           tag='planted-swapped%s:%s' % ('' if in_region else '-outside', v[:4]),
           canon=art.sort_model_verdict, pred=pred, always=in_region)
+  # ---- word sizes ps >= ws: inside the property family (ps odd in the default list, 8-bit limbs, 9*ps - 8 <= bitlen/10)
+  # but never tried by the check (C05PermutedRegion.permuted_tried_region): statistics only, plus the FIXED replay inputs
+  # of known finding D25 (deterministic: no randomness in the check or in LLL), gated the way D24 is.
+  bitp_chk = rs.CheckBitPatterns()
+  outside = [(bits, 8, ps) for bits in (1024, 2048, 3072, 4096) for ps in (9, 11, 13, 15, 31)
+             if gen_rsa.permuted_denominator(8, ps).bit_length() <= bits // 10]
+  if tier == 'quick':
+    oplan = [(1024, 8, 9), (1024, 8, 11), (3072, 8, 31), rng.choice(outside)]
+  else:
+    oplan = outside * 2
+  for bits, ws, ps in oplan:
+    dbits = gen_rsa.permuted_denominator(ws, ps).bit_length()
+    r = gen_rsa.swapped_prime(rng, bits // 2, ps, ws, rng.choice([0, 8, 16, 24, 32, 32]), attempts=4) or \
+        gen_rsa.swapped_prime(rng, bits // 2, ps, ws, 32, attempts=8)
+    if r is None:
+      rep.notes.append('no planted swapped-limb prime for bits=%d ws=%d ps=%d' % (bits, ws, ps))
+      continue
+    p = r[0]
+    n = p * cofactor(bits // 2)
+    v, calls = run_with_recording(chk, n)
+    v2 = art.fmt_verdict(bitp_chk, n)
+    planted.record('permuted-ps>=ws/%dbit/ws%d/ps%d/dbits%d' % (bits, ws, ps, dbits), False,
+                   p in verdict_factors(v) or p in verdict_factors(v2), n)
+    b.add('chk.permuted %s %s' % (H(n), red_table(calls)), v, tag='planted-swapped-ps>=ws:%s' % v[:4],
+          canon=art.sort_model_verdict)
+  d25 = any(f_.get('id') == 'D25' for f_ in fw.load_known_findings())
+  d25_missed = []
+  for label, n, p, word, ws, ps in D25_KEYS:
+    dbits = gen_rsa.permuted_denominator(ws, ps).bit_length()
+    assert n % p == 0 and dbits <= n.bit_length() // 10 and ps in DEFAULT_PS
+    v, calls = run_with_recording(chk, n)
+    v2 = art.fmt_verdict(bitp_chk, n)
+    missed = p not in verdict_factors(v) and p not in verdict_factors(v2)
+    direct = p in [int(x) for x in rsa_util.CheckFraction(gmpy2.mpz(n), gen_rsa.permuted_denominator(ws, ps))]
+    rep.extra.setdefault('d25_probe', {})[label] = dict(CheckPermutedBitPatterns=v[:8], CheckBitPatterns=v2[:8],
+                                                       CheckFraction_with_implied_denominator=direct)
+    if missed:
+      d25_missed.append(label)
+
+    def pred(n=n, missed=missed, ws=ws, ps=ps, dbits=dbits, v=v, v2=v2):
+      if missed:
+        return ('one prime is a %d-bit word repetition (size in the default list) with adjacent %d-bit limbs swapped (< 2^8 deviation), '
+                'implied denominator %d bits <= bitlen/10 = %d, but neither CheckPermutedBitPatterns (%s) nor CheckBitPatterns (%s) '
+                'factors n=%x: the check never tries psize >= wsize' % (ps, ws, dbits, n.bit_length() // 10, v[:8], v2[:8], n))
+      return None
+    b.add('chk.permuted %s %s' % (H(n), red_table(calls)), v, tag='D25-probe:%s' % v[:4], canon=art.sort_model_verdict,
+          pred=None if d25 else pred, always=not d25)
+  if d25 and d25_missed:
+    rep.known.append('D25 ' + D25_WHAT)
+  elif d25:
+    rep.notes.append('listed finding D25 no longer reproduces on its replay inputs (CheckPermutedBitPatterns repaired?)')
   # enumeration of the denominators at every documented modulus size (cheap: 3x3 LLL each;
   # random odd numbers are enough, the loops do not depend on n being a semiprime)
   bitp = rs.CheckBitPatterns()
@@ -344,48 +513,82 @@ def correspondence(rep, rng, tier):
   import math
   bp = Batch('chk.pm1_product')
   be = Batch('chk.pm1_exps')
-  # bound 0 is falsy: `if bound:` takes the DEFAULT branch (F20; Model pollardUserBound)
-  for bound in (None, 0, 2**8, 2**10, 243, 1000, 3, 2, 1):
+  # bound 0 is falsy: `if bound:` takes the DEFAULT branch (F20; Model pollardUserBound).
+  # 243 = 3^5, 4913 = 17^3, 59049 = 3^10 (thorough: 29791, 68921, 571787): the six bounds <= 2^20 where the float
+  # exponent is one too small (finding M4).
+  pbounds = (None, 0, 2**8, 2**10, 243, 4913, 59049, 1000, 3, 2, 1) + ((29791, 68921, 571787) if tier == 'thorough' else ())
+  for bound in pbounds:
     try:
       chkp = rs.CheckPollardpm1(bound)
     except Exception as e:  # noqa
       rep.notes.append('CheckPollardpm1(%r) raised %r' % (bound, e))
       continue
-    primes = [int(x) for x in ntheory_util.Sieve(bound or 2**20)]
-    if bound:
-      exps = [int(math.log(bound, pp)) for pp in primes]
-    else:
-      exps = [int(math.log(2**64, pp)) for pp in primes[:150]]
-    doc = []
-    for pp in (primes if bound else primes[:150]):
-      e = 0
-      while pp ** (e + 1) <= (bound or 2**64):
-        e += 1
-      doc.append(e)
+    ce = constructor_exponents(chkp, bound)
 
-    def pred(bound=bound, chkp=chkp, primes=primes, doc=doc):
-      m = 1
-      want = fw_prod([pp ** e for pp, e in zip(primes, doc)] + primes[len(doc):])
-      if int(chkp._m) != want:
+    def pred(bound=bound, chkp=chkp, ce=ce):
+      # NEVER switched off. (1) the real product is the sieve primes raised to the exponents of the constructor's
+      # own expression (float, as shipped) or to the exact integer logarithms (repaired constructor) - anything else
+      # means whole families of smooth keys are silently lost; (2) DEFAULT branch: the Pollard clause of C05 and
+      # C05Pollard.defaultM_dvd_iff / pollard_default_flag are about the DOCUMENTED default product, so there the
+      # real exponents must be the documented ones.
+      if ce['used'] is None:
+        want = balanced_prod([pp ** e for pp, e in zip(ce['raised'], ce['doc'])] + ce['primes'][len(ce['raised']):])
         q = want // math.gcd(want, int(chkp._m))
-        return ('CheckPollardpm1(%r): the product m differs from the documented one (missing factor %s...): '
-                'keys whose p-1 needs it are no longer flagged' % (bound, hex(q)[:40]))
+        return ('CheckPollardpm1(%r): the product m is neither the product for the float exponents int(math.log(B, p)) nor '
+                'for the exact ones (documented/real has the factor %s...): keys whose p-1 needs it are no longer flagged'
+                % (bound, hex(q)[:40]))
+      if not bound and ce['used'] != ce['doc']:
+        return ('default product: the exponents used differ from the documented floor(log_p 2^64) at primes %s: the default '
+                'Pollard product of C05 is not the one C05Pollard.defaultM_dvd_iff describes'
+                % [pp for pp, a, c in zip(ce['raised'], ce['used'], ce['doc']) if a != c][:5])
       return None
-    bp.add('chk.pm1_product %s %s' % (O(bound), L(exps)), H(int(chkp._m)), tag='bound=%s' % bound,
-           pred=pred, always=(exps == doc))
-    be.add('chk.pm1_exps %s' % O(bound), L(doc), tag='documented-exponents')
-    if exps != doc:
-      rep.notes.append('float int(math.log(bound, p)) differs from the exact floor log for bound=%r at primes %s'
-                       % (bound, [pp for pp, a, c in zip(primes, exps, doc) if a != c][:5]))
+    used = ce['used'] if ce['used'] is not None else ce['float']
+    bp.add('chk.pm1_product %s %s' % (O(bound), L(used)), H(int(chkp._m)), tag='bound=%s' % bound,
+           pred=pred, always=True)
+    be.add('chk.pm1_exps %s' % O(bound), L(ce['doc']), tag='documented-exponents')
+    if bound and ce['used'] is not None and ce['used'] != ce['doc']:
+      st = rep.extra.setdefault('pollard_float_exponents', {})
+      st[str(bound)] = {str(pp): list(ac) for pp, ac in ce['diff'].items()}
+      rep.notes.append('OBSERVATION (review-2 M4; user-bound path only, the default product of C05 is unaffected): '
+                       'CheckPollardpm1(%d) uses int(math.log(bound, p)) = %s instead of the exact %s at p = %s; the real product '
+                       'lacks that factor, the clause is evaluated with the REAL exponents (C05PollardExps.product_dvd_iff); '
+                       'proposed patch fixes/pollard-user-bound-exponent.diff%s'
+                       % (bound, [a for a, _ in ce['diff'].values()], [c for _, c in ce['diff'].values()], list(ce['diff']),
+                          '' if ce['diff'] == FLOAT_DIFF.get(bound) else ' — NOT the recorded difference %r' % (FLOAT_DIFF.get(bound),)))
+    elif bound in FLOAT_DIFF and ce['used'] is not None:
+      rep.notes.append('CheckPollardpm1(%d) uses the exact exponents (constructor repaired or different float library): '
+                       'C05PollardExps.floatExps243 describes the shipped constructor only' % bound)
+  # constructor arguments OUTSIDE the model's `Option Nat` (review-2 L15): recorded on the implementation only.
+  # -1: ValueError (gmpy2 isqrt of a negative number inside Sieve); 2.5: TypeError; True: truthy, Sieve(True) = [] -> m = 1
+  # (as for the bounds 1 and 2, which ARE modelled: pollardProduct (some 1) _ = 1).
+  outside_model = {}
+  for arg, want in ((-1, 'ValueError'), (2.5, 'TypeError'), (True, 'm=1')):
+    try:
+      got = 'm=%d' % int(rs.CheckPollardpm1(arg)._m)
+    except Exception as e:  # noqa
+      got = type(e).__name__
+    outside_model[repr(arg)] = got
+    if got != want:
+      rep.notes.append('CheckPollardpm1(%r): %s (recorded behaviour: %s) — argument outside the model (Option Nat)' % (arg, got, want))
+  rep.extra['pollard_constructor_outside_model'] = outside_model
+  # the recorded float exponents of Lean (Model/PollardFloat.lean floatExps243, used by C05PollardExps.bound243_*)
+  # are the values of the shipped expression on this platform
+  bf = Batch('chk.pm1_float243')
+  bf.add('chk.pm1_float243', L([int(math.log(243, int(pp))) for pp in ntheory_util.Sieve(243)]), tag='float-exponents-243')
+  rep.absorb(bf, bf.run())
   rep.absorb(bp, bp.run())
   rep.absorb(be, be.run())
 
   # ---------------- CheckPollardpm1 with user bounds (default product is 1.5 Mbit: thorough only)
   b = Batch('chk.pm1')
-  bounds = [2**8, 2**10] + ([None] if tier == 'thorough' else [])
+  # 243 = 3^5: the real constructor raises 3 to the 4th power only (float exponent, finding M4); the clause and the
+  # criterion are evaluated with the REAL exponents there as everywhere
+  bounds = [2**8, 2**10, 243] + ([None] if tier == 'thorough' else [])
   for bound in bounds:
     chk = rs.CheckPollardpm1(bound)
     m = int(chk._m)
+    if (bound or None) not in USED_EXPS:
+      constructor_exponents(chk, bound)
     name = 'm%s' % (bound or 'default')
     b.let(name, H(m))
     sm = []
@@ -443,6 +646,18 @@ def correspondence(rep, rng, tier):
           rep.notes.append('no prime pair for pollard family %s bound=%r' % (fam_, bound))
           continue
         pw.append((fam_, r[0] * r[1], r[0], gf_))
+    if bound == 243:
+      # C05PollardExps.bound243_documented_vs_real (kernel-checked): every hypothesis of C05Pollard.pollard_user_flag
+      # holds for the DOCUMENTED product, the real product lacks one factor 3 and the gate stays closed
+      pw.append(('bound243-witness', 20733112663155396649 * 681939511396589371385657642542849294057,
+                 20733112663155396649, [(2, 2), (3, 5), (19, 1), (23, 1), (43, 1), (59, 1), (103, 1), (127, 1),
+                                        (181, 1), (239, 1)]))
+      for _ in range(reps if USED_EXPS.get(243, {}).get(3) == 4 else 0):
+        r = float_edge_key(rng, 243, 3, 5, m)
+        if r is None:
+          rep.notes.append('no fresh float-edge key for bound 243')
+        else:
+          pw.append(('float-edge', r[0] * r[1], r[0], r[2]))
     if bound is None:
       # the kernel-checked witnesses of Props/C05Pollard.lean (literal_text_fails, non-vacuity example)
       pw.append(('literal-witness', 25553441901090092879257 * 2233202595329425274535519299,
@@ -465,6 +680,9 @@ def correspondence(rep, rng, tier):
                     'exponent criterion says %s' % (bound, g_, m % g_ == 0, crit))
           if tag == 'literal-witness' and v != 'ok 0 [] 0':
             return 'C05Pollard.literal_text_fails proves (False, []) for this key, the implementation says %s' % v
+          if tag == 'bound243-witness' and USED_EXPS.get(243, {}).get(3) == 4 and v != 'ok 0 [] 0':
+            return ('C05PollardExps.bound243_documented_vs_real proves (False, []) for this key and the product with the '
+                    'float exponents, the implementation says %s' % v)
         g = math.gcd(math.gcd(sp - 1, q - 1), m)
         fs = verdict_factors(v)
         if g >= 2**60 and ((n - 1) * m) % (sp - 1) == 0:
@@ -496,7 +714,16 @@ def correspondence(rep, rng, tier):
     dstat = rep.extra.setdefault('pollard_default_impl_only', {})
     cases = [('literal-witness', 25553441901090092879257, 2233202595329425274535519299, [(1009, 7)], 'ok 0 [] 0'),
              ('power-in-witness', 8562318457488567634551083203943137586184193, 97583607849372129325744129,
-              [(2, 19), (3, 10), (863, 2), (1009, 1)], None)]
+              [(2, 19), (3, 10), (863, 2), (1009, 1)], None),
+             # C05PollardExps.both_smooth_witness (kernel-checked (True, [])): p-1 and q-1 both divide the default product
+             ('both-smooth-witness', 8562318457488567634551083203943137586184193, 49455007315820782842544129,
+              [(2, 20), (3, 22), (863, 2), (1009, 1)], 'ok 1 [] 0'),
+             # the same PROPERTY-TEXT LIMITATION at the property's size (1024-bit n, found by the second review): g = 1009^7
+             # divides p-1 and q-1, (p-1) | (n-1)*m, q-1 not, gcd(n-1, m) has 25 bits: not flagged
+             ('literal-witness-1024',
+              11514020204091215725318855726955114876037586507592971883966990071685554246757326872735650142435211540754699528075333251819077524720522124206704661997473977,
+              9459521728791857765807521144859151501997355735944939458813638992715253154199018518628184660065288639875946358666848535991139027806322135340226414031941799,
+              [(1009, 7)], 'ok 0 [] 0')]
     for fam_, gf_ in (('power-in', [(2, 30), (3, 20), (863, 6), (1009, 1), (1048573, 1)]),
                       ('power-in', [(2, 63), (3, 2)]),
                       ('power-edge', [(2, 30), (3, 25), (5, 10), (1009, 2)]),
@@ -512,7 +739,11 @@ def correspondence(rep, rng, tier):
       g_ = 2 * fw_prod([r_ ** k_ for r_, k_ in gf_])
       crit = divides_by_criterion([(2, 1 + dict(gf_).get(2, 0))] + [t_ for t_ in gf_ if t_[0] != 2], None)
       problem = None
-      if (md % g_ == 0) != crit:
+      if fam_.startswith('literal-witness') and not ((p_ - 1) % (g_ // 2) == 0 and (q_ - 1) % (g_ // 2) == 0 and g_ // 2 >= 2**60 and
+                                                     ((n_ - 1) * md) % (p_ - 1) == 0 and ((n_ - 1) * md) % (q_ - 1) != 0 and
+                                                     gmpy2.is_prime(p_) and gmpy2.is_prime(q_)):
+        problem = 'the literal-text witness does not satisfy the hypotheses of the property clause'
+      elif (md % g_ == 0) != crit:
         problem = 'criterion defaultM_dvd_iff fails on the real default product for g=%x' % g_
       elif want is not None and v != want:
         problem = 'kernel-checked verdict %s, implementation %s' % (want, v)
@@ -554,8 +785,10 @@ def correspondence(rep, rng, tier):
         rsa_util.CheckLowHammingWeight = real_lhw
       b.add('chk.lhw %s %s %s' % (H(n), H(cutoff), H(maxsteps)), v, tag=tag + ':' + v[:8],
             canon=art.sort_model_verdict)
-  # weights up to 32 with the DEFAULT parameters (the clause of the property): must be flagged
-  # (factored or SEVERITY_UNKNOWN); measured beforehand: 120 of 120 flagged at 1024..4096 bits.
+  # weights up to 32 with the DEFAULT parameters (the clause of the property): flagged (factored or
+  # SEVERITY_UNKNOWN) for 136 of 136 measured keys with randomly placed bits at 1024..4096 bits, but NOT for
+  # every key (known finding D24: sparse primes starting with a run of ones): the fixed corpus is gated, fresh
+  # keys are statistics.
   planted = Planted(rep)
   try:
     lhw_res = lhw_async.get(timeout=900)
